@@ -92,9 +92,29 @@ impl<'a> Shrinker<'a> {
             c.schedule.clear();
             self.try_accept(cur, c);
         }
+        for i in (0..cur.triggers.len()).rev() {
+            // an in-flight trigger becomes a plain "before the walk" step, or goes away
+            let mut c = cur.clone();
+            let t = c.triggers.remove(i);
+            c.schedule.insert(0, Step::M(t.mutation));
+            if !self.try_accept(cur, c) {
+                let mut c = cur.clone();
+                c.triggers.remove(i);
+                self.try_accept(cur, c);
+            }
+        }
         for i in (0..cur.mutations.len()).rev() {
             let mut c = cur.clone();
             c.mutations.remove(i);
+            c.triggers = c
+                .triggers
+                .iter()
+                .filter(|t| t.mutation != i)
+                .map(|t| Trigger {
+                    mutation: if t.mutation > i { t.mutation - 1 } else { t.mutation },
+                    ..t.clone()
+                })
+                .collect();
             c.schedule = c
                 .schedule
                 .iter()
